@@ -43,6 +43,9 @@ def sample_settings(r, doc, rich=True):
             p["rename"] = "Renamed" + sanitize_guess(tgt)
         if r.random() < 0.5 and scalar_only((doc.get("definitions") or {}).get(tgt)):
             p["derives"] = r.choice([["PartialEq"], ["Clone"], ["PartialEq", "Debug"]])
+            if (doc.get("definitions") or {}).get(tgt, {}).get("type") == "string" and r.random() < 0.5:
+                # string newtypes and data-less enums already order and hash: asking for part of that must not cost the rest
+                p["derives"] = r.choice([["PartialOrd"], ["PartialEq"], ["PartialOrd", "PartialEq"], ["Hash"]])
         s["patches"] = [p]
         sig.append("patch")
     if rich and defs and r.random() < 0.15:
